@@ -292,6 +292,31 @@ func ruleUnparsedScan(c *Ctx) {
 	c.Rule("UNPARSED-SCAN", "The predicate by which Rewrite decides whether a block still has text to parse (hasUnparsed) examines every inline child of the block: a unit-stride loop over the whole list that answers true for any child of kind Unparsed. A shortcut that looks at the first child only skips a paragraph that begins with an Indent node (a reference definition followed by a tab-indented continuation line inside a container), and its Unparsed nodes stay in the finished tree.")
 	p := c.P
 	fn := p.Func("hasUnparsed")
+	if fn == nil {
+		// located by use: the bool-valued module function Rewrite hands a block to before it parses it
+		if rw := p.Method("InlineParser", "Rewrite"); rw != nil {
+			var cands []*ssa.Function
+			eachInstr(rw, func(in ssa.Instruction) {
+				call, ok := in.(*ssa.Call)
+				if !ok {
+					return
+				}
+				g := call.Call.StaticCallee()
+				if g == nil || !p.InModule(g) || g.Signature.Results().Len() != 1 || g.Signature.Results().At(0).Type().String() != "bool" {
+					return
+				}
+				for _, a := range call.Call.Args {
+					if typeName(deref(a.Type())) == "Block" {
+						cands = append(cands, g)
+						return
+					}
+				}
+			})
+			if len(cands) == 1 {
+				fn = cands[0]
+			}
+		}
+	}
 	if !c.NeedFunc("UNPARSED-SCAN", fn, "hasUnparsed") {
 		return
 	}
@@ -340,6 +365,33 @@ func ruleUnparsedScan(c *Ctx) {
 					}
 				}
 				if start && step && bounded {
+					okAll, why = true, ""
+				}
+				// counting down: from len(list)-1 by -1 while the index is >= 0
+				dstart, dstep, dbound := false, false, false
+				for _, e := range ph.Edges {
+					if b2, ok := e.(*ssa.BinOp); ok && b2.Op == token.SUB {
+						if one, isC := constInt(b2.Y); isC && one == 1 {
+							if b2.X == ssa.Value(ph) {
+								dstep = true
+							} else if cl, ok := isBuiltinCall(b2.X, "len"); ok {
+								if _, ok := isLoadOfFieldAny(cl.Call.Args[0], "inlineChildren"); ok {
+									dstart = true
+								}
+							}
+						}
+					}
+				}
+				for _, blk := range fn.Blocks {
+					if iff := blockIf(blk); iff != nil {
+						if cmp, ok := iff.Cond.(*ssa.BinOp); ok && cmp.X == ssa.Value(ph) {
+							if k, isC := constInt(cmp.Y); isC && ((cmp.Op == token.GEQ && k == 0) || (cmp.Op == token.GTR && k == -1)) {
+								dbound = true
+							}
+						}
+					}
+				}
+				if dstart && dstep && dbound {
 					okAll, why = true, ""
 				}
 			}
